@@ -11,7 +11,7 @@ From Coq Require Import ZArith List Bool Sorted.
 From Low Require Import Lib.Bits Lib.BitSeq Model.BuilderOps Model.BitmapOf Spec.OfSpec
   Proofs.OfProofs Proofs.OfInspect Proofs.OfRoundTrip Proofs.BuilderProofs
   Model.BitmapMask Spec.MaskSpec Proofs.MaskProofs Model.BitmapFmt Spec.FmtSpec Proofs.FmtProofs
-  Model.Rank Model.BitmapNext Spec.OfQuerySpec Proofs.OfCompose Proofs.OfTotal Proofs.BuilderLen.
+  Model.Rank Model.BitmapNext Spec.OfQuerySpec Proofs.OfCompose Proofs.OfTotal Proofs.BuilderLen Model.BitmapOf32 Proofs.Of32.
 Import ListNotations.
 Open Scope Z_scope.
 
@@ -197,6 +197,43 @@ Theorem C12_Of_membership : forall ps opt,
     (forall i, 0 <= i < 64 * zlen r -> Get1 r i = Some (Z.b2z (member ps i)) /\ (Get r i = Some 0 <-> ~ In i ps)).
 Proof. exact Of_membership. Qed.
 Print Assumptions C12_Of_membership.
+
+(** * the size hypothesis, discharged: Go's int32 arithmetic (Model/BitmapOf32.v: every [+] wrapped by [i32], the
+    truncating [int32(len * 64)]) coincides with the unbounded model used above, below these explicit bounds
+    (MaxI32 = 2^31 - 1).  So each theorem above holds of the int32 code for inputs within the bounds. *)
+Theorem C12_int32_Of : forall ps opt,
+  (ps <> [] -> - 2^31 <= last ps 0 + 1 <= MaxI32) -> of_bits ps opt + 63 <= MaxI32 ->
+  Of32 ps opt = Of ps opt.
+Proof. exact Of32_eq. Qed.
+Print Assumptions C12_int32_Of.
+
+Theorem C12_int32_OfMany : forall subs sizes,
+  length subs = length sizes -> om_bounded subs sizes 0 ->
+  (shifted subs sizes 0 <> [] -> - 2^31 <= last (shifted subs sizes 0) 0 + 1 <= MaxI32) ->
+  of_bits (shifted subs sizes 0) (Some (total sizes)) + 63 <= MaxI32 ->
+  OfMany32 subs sizes = OfMany subs sizes.
+Proof. exact OfMany32_eq. Qed.
+Print Assumptions C12_int32_OfMany.
+
+(** [om_bounded] (every running sum and every shifted position is an int32) holds for non-negative sizes and
+    positions whose sum / shifted values do not exceed MaxI32 *)
+Theorem C12_int32_OfMany_bound : forall subs sizes base,
+  0 <= base -> Forall (fun s => 0 <= s) sizes -> Forall (Forall (fun p => 0 <= p)) subs ->
+  base + total sizes <= MaxI32 ->
+  (forall p, In p (shifted subs sizes base) -> p <= MaxI32) ->
+  om_bounded subs sizes base.
+Proof. exact om_bounded_nonneg. Qed.
+Print Assumptions C12_int32_OfMany_bound.
+
+Theorem C12_int32_ToArray : forall ws, 64 * zlen ws <= MaxI32 -> ToArray32 ws = ToArray ws.
+Proof. exact ToArray32_eq. Qed.
+Print Assumptions C12_int32_ToArray.
+
+(** a Builder history in which every call keeps Offset + size, Offset + last + 1 and p + 1 within int32 *)
+Theorem C12_int32_Builder : forall ops a b,
+  binv a b -> forallb bop_dom ops = true -> hist_bounded a ops -> bfold32 b ops = bfold b ops.
+Proof. exact bfold32_eq. Qed.
+Print Assumptions C12_int32_Builder.
 
 (** * widening: the mask tables of bitmap/mask.go (Get/SafeGet read [Bit]) *)
 (** every read of Mask/RMask (any integer index): the closed forms 2^i - 1 / 2^64 - 2^i inside 0..64,
@@ -417,4 +454,15 @@ Example C12_Builder_words_nonvacuous :
     = (4, {| abits := [1; 70; 200; 0; 201]; aoff := 202 |}) /\
   member [0; 63; 64; 190] 64 = true /\ member [0; 63; 64; 190] 65 = false /\
   SafeGet1 [2^63 + 1; 1; 2^62] 64 = Some 1 /\ SafeGet1 [2^63 + 1; 1; 2^62] (-3) = Some 0.
+Proof. vm_compute. intuition congruence. Qed.
+
+(** int32 bounds: a bitmap just below the limit is inside the bounds (its last position is 2^31 - 65), one position
+    further is not (and the wrapped model then differs: (n + 63) overflows and make panics) *)
+Example C12_int32_nonvacuous :
+  ([2^31 - 65] <> [] -> - 2^31 <= last [2^31 - 65] 0 + 1 <= MaxI32) /\
+  of_bits [2^31 - 65] None + 63 <= MaxI32 /\
+  ~ (of_bits [2^31 - 64] None + 63 <= MaxI32) /\
+  Of32 [] (Some (2^31 - 1)) = None /\
+  hist_bounded abs0 [BExtend [1; 70] 3; BSet 200 (-1); BExtend [0] (2^31 - 300)] /\
+  ~ hist_bounded abs0 [BExtend [1; 70] 3; BSet 200 (-1); BExtend [0] (2^31 - 201)].
 Proof. vm_compute. intuition congruence. Qed.
